@@ -14,9 +14,13 @@ import itertools
 import json
 import logging
 import os
+import hashlib
+import random
 import re
+import time
 
 from lib.framework import Check, enc, dec, time_limit, TimeLimit
+from lib import pool
 from gen import c06_prefs
 from harness import c06_extract as X
 from harness import c06_gen as G
@@ -34,6 +38,9 @@ ALT = {
 }
 # a separator that also occurs inside tokens: every case lands in the region of finding C06-indent-inside-token
 ALT_RARE = {'lineSeparator': [' ']}
+# the match operators that `*`, `|`, `^`, `$` followed by `=` fuse into (region of C06-op-equals-fusion; `~=` is
+# not among them: the `~` gets its blanks from the `+>~` branch of Out.append, which d39f9c4 then sees)
+FUSED_MATCH = {'SUBSTRINGMATCH': '*=', 'DASHMATCH': '|=', 'PREFIXMATCH': '^=', 'SUFFIXMATCH': '$='}
 NO_KEYWORD_RULES = ('CSSMediaRule', 'CSSPageRule', 'CSSFontFaceRule', 'CSSVariablesRule')
 
 
@@ -101,6 +108,49 @@ class Probe:
         self.hit = True
 
 
+class Rec:
+    """stands in for the context inside a pool worker: records what the harness reports, in order; the parent
+    replays the record into the real context (`C06.par`). Model requests are answered by the worker's own driver
+    process, so the (long) request lines never leave the worker."""
+
+    def __init__(self, ctx):
+        self._ctx = ctx
+        self.events = []
+        self.disagreements = []
+        self.model_ok = ctx.model_ok
+        self.search_mode = getattr(ctx, 'search_mode', False)
+        self.verif = ctx.verif
+        self.repo = ctx.repo
+        self.traces = 0
+        self._k = 0
+
+    def n(self, quick, thorough):
+        return self._ctx.n(quick, thorough)
+
+    def case(self, key=None, nontrivial=True, sample=None, kind=None):
+        self._k += 1
+        self.events.append(('case', key, nontrivial, sample if self._k % 8 == 1 else None, kind))
+
+    def count(self, kind, k=1):
+        self.events.append(('count', kind, k))
+
+    def violate(self, clause, witness, detail=None, known=None):
+        self.events.append(('violate', clause, witness, detail, known))
+
+    def disagree(self, what, inp, impl, model):
+        self.disagreements.append(1)
+        self.events.append(('disagree', what, inp, impl, model))
+
+    def driver(self, lines):
+        out = self._ctx.driver(lines)
+        self.traces += len(lines)
+        return out
+
+
+def src_key(src):
+    return hashlib.blake2b(src.encode('utf-8', 'surrogatepass'), digest_size=12).hexdigest()
+
+
 def diff_prefs(prefs, defaults):
     return {k: v for k, v in sorted(prefs.items()) if v != defaults[k]}
 
@@ -162,9 +212,11 @@ class C06(Check):
         im = Impl()
         self.im = im
         try:
-            for part in (self.oracle_record, self.run_corpus, self.corr_append, self.run_namespaces, self.run_block_ends, self.run_cascade,
+            for part in (self.oracle_record, self.run_corpus, self.corr_append, self.run_pairs, self.run_namespaces, self.run_block_ends, self.run_cascade,
                          self.run_sheets, self.run_files, self.oracle_restore):
+                t0 = time.time()
                 ctx.phase(part, ctx, im)
+                ctx.notes.setdefault('phase_s', {})[part.__name__] = round(time.time() - t0, 1)
         finally:
             im.cu.ser.prefs.useDefaults()
 
@@ -237,6 +289,49 @@ class C06(Check):
         p.update(d)
         return p
 
+    # -- many sheets in the process pool -----------------------------------------------------------
+    def par(self, ctx, im, jobs):
+        """jobs: dicts with the arguments of `check_sheet` (`rng` given as a seed). Each job — implementation runs,
+        oracles, model requests and their comparison — runs in a forked worker against a recording context; the
+        records are replayed here in job order, so the run is deterministic for a seed. A job whose worker hung or
+        died is run once more in this process, where a time limit or exception surfaces as it did before."""
+        def work(job):
+            rec = Rec(ctx)
+            try:
+                rng = random.Random(job['seed']) if job.get('seed') is not None else None
+                pending = self.check_sheet(rec, im, job['src'], job['records'], job['kind'],
+                                           oracle_share=job.get('oracle_share', 1.0), rng=rng,
+                                           roundtrip=job.get('roundtrip', True))
+                self.flush(rec, pending)
+            finally:
+                im.cu.ser.prefs.useDefaults()
+            return rec.events, rec.traces
+
+        if len(jobs) < 4:
+            results = [(j, ('inline', None)) for j in jobs]
+        else:
+            results = pool.run_cases(work, jobs, nproc=min(8, max(2, (os.cpu_count() or 4) // 2)), timeout=300.0)
+        for job, res in results:
+            if res[0] != 'ok':
+                if res[0] != 'inline':
+                    ctx.count('pool-job-rerun-inline:' + res[0])
+                rng = random.Random(job['seed']) if job.get('seed') is not None else None
+                self.flush(ctx, self.check_sheet(ctx, im, job['src'], job['records'], job['kind'],
+                                                 oracle_share=job.get('oracle_share', 1.0), rng=rng,
+                                                 roundtrip=job.get('roundtrip', True)))
+                continue
+            events, traces = res[1]
+            ctx.traces += traces
+            for ev in events:
+                if ev[0] == 'case':
+                    ctx.case(key=ev[1], nontrivial=ev[2], sample=ev[3], kind=ev[4])
+                elif ev[0] == 'count':
+                    ctx.count(ev[1], ev[2])
+                elif ev[0] == 'violate':
+                    ctx.violate(ev[1], ev[2], ev[3], known=ev[4])
+                else:
+                    ctx.disagree(ev[1], ev[2], ev[3], ev[4])
+
     # -- one sheet under many records -------------------------------------------------------------
     NEUTRAL = {'keepComments': True, 'keepEmptyRules': True, 'keepUnknownAtRules': True,
                'keepUsedNamespaceRulesOnly': False, 'keepAllProperties': True, 'validOnly': False,
@@ -303,7 +398,7 @@ class C06(Check):
             res, line = im.serialize(sh, prefs, toks)
             dp = diff_prefs(prefs, im.defaults)
             nontrivial = (not dp) or res != d0
-            ctx.case(key=(raw, src, tuple(sorted((k, repr(v)) for k, v in dp.items()))), nontrivial=nontrivial,
+            ctx.case(key=(raw, src_key(src), tuple(sorted((k, repr(v)) for k, v in dp.items()))), nontrivial=nontrivial,
                      sample={'src': src[:300], 'prefs': dp, 'impl': res[1][:300] if res[0] == 'OK' else res[:3]},
                      kind='%s:%s' % (kind, 'default' if not dp else ('single' if len(dp) == 1 else
                                                                     ('pair' if len(dp) == 2 else 'multi'))))
@@ -315,10 +410,13 @@ class C06(Check):
         return pending
 
     def flush(self, ctx, pending):
-        if not pending or not ctx.model_ok:
-            return
-        outs = ctx.driver([l for l, _ in pending])
-        for (line, case), m in zip(pending, outs):
+        if not pending or not ctx.model_ok or getattr(ctx, 'search_mode', False):
+            return      # (the search looks for a failing input on the implementation: oracle only)
+        n = len(pending)
+        # every request twice: `sheet` = the model serializer on the DOM under the record; `effsheet` = the model
+        # serializer on the TRANSFORMED DOM (`effectSheet`) under the record with the leaf preferences neutral
+        outs = ctx.driver([l for l, _ in pending] + ['eff' + l for l, _ in pending])
+        for (line, case), m, me in zip(pending, outs[:n], outs[n:]):
             res = case['res']
             if res[0] == 'OK':
                 got = 'OK ' + enc(res[1])
@@ -340,6 +438,13 @@ class C06(Check):
                     prefs = self.shrink_prefs(ctx, case['src'], prefs)
                 ctx.disagree('sheet.cssText', {'src': case['src'], 'prefs': prefs, 'shrunk_from': case['prefs'],
                                                'raw': case.get('raw', False)}, a[:3000], bm[:3000])
+            elif me != m:
+                # the model agrees with the code on the DOM, but the transformed DOM under the neutral record is
+                # written differently: the DOM rewrite is not the whole effect of the leaf preferences
+                ctx.disagree('effect DOM under the neutral record', {'src': case['src'], 'prefs': case['prefs'],
+                                                                     'raw': case.get('raw', False)},
+                             (dec(m[3:]) if m.startswith('OK ') else m)[:3000],
+                             (dec(me[3:]) if me.startswith('OK ') else me)[:3000])
 
     def disagrees(self, ctx, src, d):
         im = self.im
@@ -427,7 +532,19 @@ class C06(Check):
                 else:
                     out.append((t, v))
             return out
-        if n3(a) == n3(b):
+        def n9(ts):   # region of C06-op-equals-fusion: `* | ^ $` + `=` written as one token when the spacer is empty
+            out = []
+            for t, v in ts:
+                if t in FUSED_MATCH and v == FUSED_MATCH[t]:
+                    out.append(('CHAR', v[0]))
+                    out.append(('CHAR', '='))
+                else:
+                    out.append((t, v))
+            return out
+        if prefs['spacer'] == '' and n9(a) != a and n9(a) == n9(b):
+            ctx.violate('layout preferences change the token sequence', wit,
+                        self.first_diff(a, b), known='C06-op-equals-fusion')
+        elif n3(a) == n3(b):
             ctx.violate('layout preferences change a non-whitespace token', wit,
                         self.first_diff(a, b), known='C06-indent-inside-token')
         elif prefs['selectorCombinatorSpacer'] == '' and n4(a) == n4(b):
@@ -483,21 +600,24 @@ class C06(Check):
                 return out
             return x
 
-        def n8(x):   # region of C06-hash-in-unknown-rule: a HASH token of an unknown at-rule is shortened too
+        def n9(x):   # region of C06-op-equals-fusion: `* | ^ $` + `=` written as one token when the spacer is empty
             if isinstance(x, (list, tuple)):
-                if len(x) == 2 and x[0] == 'HASH' and isinstance(x[1], str):
-                    v = x[1]
-                    if len(v) == 7 and v[1] == v[2] and v[3] == v[4] and v[5] == v[6]:
-                        return ['HASH', '#' + v[1] + v[3] + v[5]]
-                    return list(x)
-                return [n8(y) for y in x]
+                out = []
+                for y in x:
+                    if isinstance(y, (list, tuple)) and len(y) == 2 and isinstance(y[0], str) \
+                            and FUSED_MATCH.get(y[0]) == y[1]:
+                        out.append(['CHAR', y[1][0]])
+                        out.append(['CHAR', '='])
+                    else:
+                        out.append(n9(y))
+                return out
             return x
         # the normalisations whose region predicate holds for this case, applied to both sides
         norms = [('C06-indent-inside-token', n3)]
+        if prefs['spacer'] == '':
+            norms.append(('C06-op-equals-fusion', n9))
         if prefs['selectorCombinatorSpacer'] == '':
             norms.append(('C06-nth-plus-fusion', n4))
-        if prefs['minimizeColorHash']:
-            norms.append(('C06-hash-in-unknown-rule', n8))
 
         def apply(fs, x):
             for _, f in fs:
@@ -549,7 +669,7 @@ class C06(Check):
         content = [k for k in X.PREF_ORDER if k not in O.LAYOUT and k not in ('lineNumbers', 'indentSpecificities')]
         recs = [{}] + [{k: (ALT[k][0] if k in ALT else not im.defaults[k])} for k in content] \
             + [diff_prefs(im.minified, im.defaults)]
-        pending = []
+        jobs = []
         for place, body in self.NS_PLACES.items():
             if place.startswith('default namespace'):
                 heads = ['@namespace "u0";@namespace q "u2";', '@namespace q "u2";@namespace "u0";@namespace r "u3";']
@@ -558,8 +678,8 @@ class C06(Check):
                          '@namespace "u0";@namespace p "u1";@namespace q "u2";']
             for head in heads:
                 for tail in ('', 'd{left:0}'):
-                    pending += self.check_sheet(ctx, im, head + body + tail, recs, 'namespace-place')
-        self.flush(ctx, pending)
+                    jobs.append({'src': head + body + tail, 'records': recs, 'kind': 'namespace-place'})
+        self.par(ctx, im, jobs)
 
     # -- what a block ends with, for every kind of block ------------------------------------------------
     BLOCK_TAILS = ['e\\ ', 'x e\\ ', '"s"', 'f(x)', '1px', '#aabbcc', 'url(a\\ )',
@@ -573,18 +693,19 @@ class C06(Check):
         """Every kind of declaration / variables block ending in every kind of value (escaped blank, string, function,
         comment, ...) under the default record, every single preference and the minified preset: the end of a block is
         where the last-semicolon omission, the closing brace and the final strip of the block text meet."""
-        recs = [{}] + self.singles(im) + [diff_prefs(im.minified, im.defaults),
+        singles = self.singles(im)
+        if ctx.n(True, False):
+            # quick tier: one alternative per preference (the first: the empty string for the layout strings)
+            first = {}
+            for d in singles:
+                first.setdefault(next(iter(d)), d)
+            singles = list(first.values())
+        recs = [{}] + singles + [diff_prefs(im.minified, im.defaults),
                                          {'resolveVariables': False, 'omitLastSemicolon': False},
                                          {'resolveVariables': False, 'lineSeparator': ''},
                                          {'resolveVariables': False, 'keepComments': False}]
-        pending = []
-        for kind in self.BLOCK_KINDS:
-            for tail in self.BLOCK_TAILS:
-                pending += self.check_sheet(ctx, im, kind.replace('%s', tail), recs, 'block-end')
-            if len(pending) > 4000:
-                self.flush(ctx, pending)
-                pending = []
-        self.flush(ctx, pending)
+        self.par(ctx, im, [{'src': kind.replace('%s', tail), 'records': recs, 'kind': 'block-end'}
+                           for kind in self.BLOCK_KINDS for tail in self.BLOCK_TAILS])
 
     # -- the cascade inside one block: every priority pattern of a name declared two or three times ---------
     def run_cascade(self, ctx, im):
@@ -603,26 +724,21 @@ class C06(Check):
                 {'keepAllProperties': False, 'validOnly': True}, {'keepAllProperties': False, 'omitLastSemicolon': False},
                 {'keepAllProperties': False, 'defaultPropertyPriority': False},
                 dict(diff_prefs(im.minified, im.defaults), keepAllProperties=False)]
-        pending = []
-        for i, b in enumerate(blocks):
-            wrap = ['a{%s}', '@page{%s}', '@page{@top-left{%s}}', '@media print{a{%s}}'][i % 4]
-            pending += self.check_sheet(ctx, im, wrap % b, recs, 'cascade')
-        self.flush(ctx, pending)
+        wraps = ['a{%s}', '@page{%s}', '@page{@top-left{%s}}', '@media print{a{%s}}']
+        self.par(ctx, im, [{'src': wraps[i % 4] % b, 'records': recs, 'kind': 'cascade'} for i, b in enumerate(blocks)])
 
     def run_sheets(self, ctx, im):
-        rng = ctx.sub_rng('sheets')
+        rng = ctx.sub_rng('sheets' + getattr(self, 'salt', ''))
         singles = self.singles(im)
         n_all = ctx.n(10, 60)         # sheets that get singles + ALL PAIRS + minified + random records
         n_some = ctx.n(80, 1500)      # sheets that get default, minified, a few singles, pairs and random records
-        pending = []
+        jobs = []
         for i in range(n_all):
             src = G.sheet(rng)
             recs = [{}] + singles + self.pairs(im, rng) + [diff_prefs(im.minified, im.defaults)] \
                 + [self.random_record(im, rng) for _ in range(ctx.n(40, 200))]
-            pending += self.check_sheet(ctx, im, src, recs, 'gen', oracle_share=ctx.n(0.25, 0.5), rng=rng)
-            if len(pending) > 4000:
-                self.flush(ctx, pending)
-                pending = []
+            jobs.append({'src': src, 'records': recs, 'kind': 'gen', 'oracle_share': ctx.n(0.25, 0.5),
+                         'seed': rng.getrandbits(48)})
         allpairs = list(itertools.combinations(X.PREF_ORDER, 2))
         for i in range(n_some):
             src = G.sheet(rng)
@@ -630,18 +746,15 @@ class C06(Check):
             for a, b in rng.sample(allpairs, 6):
                 recs.append({a: self.alt_value(im, a, rng), b: self.alt_value(im, b, rng)})
             recs += [self.random_record(im, rng) for _ in range(6)]
-            pending += self.check_sheet(ctx, im, src, recs, 'gen', oracle_share=0.6, rng=rng)
-            if len(pending) > 4000:
-                self.flush(ctx, pending)
-                pending = []
-        self.flush(ctx, pending)
+            jobs.append({'src': src, 'records': recs, 'kind': 'gen', 'oracle_share': 0.6, 'seed': rng.getrandbits(48)})
+        self.par(ctx, im, jobs)
 
     def run_files(self, ctx, im):
-        rng = ctx.sub_rng('files')
+        rng = ctx.sub_rng('files' + getattr(self, 'salt', ''))
         files = sorted(glob.glob(os.path.join(ctx.repo, 'sheets', '*.css'))
                        + glob.glob(os.path.join(ctx.repo, 'cssutils', 'tests', 'sheets', '*.css')))
         limit = ctx.n(12000, 120000)
-        pending = []
+        jobs = []
         seen = set()
         for f in files:
             data = open(f, 'rb').read()
@@ -656,14 +769,14 @@ class C06(Check):
             recs = [{}, diff_prefs(im.minified, im.defaults)]
             recs += rng.sample(self.singles(im), ctx.n(2, 8) if big else ctx.n(6, 30))
             recs += [self.random_record(im, rng) for _ in range(ctx.n(2, 6) if big else ctx.n(4, 20))]
-            pending += self.check_sheet(ctx, im, src, recs, 'file', oracle_share=0.5, rng=rng)
-            self.flush(ctx, pending)
-            pending = []
+            jobs.append({'src': src, 'records': recs, 'kind': 'file', 'oracle_share': 0.5, 'seed': rng.getrandbits(48)})
+        jobs.sort(key=lambda j: -len(j['src']) * len(j['records']))     # the long ones first
+        self.par(ctx, im, jobs)
 
     # -- Out.append scripts against the real Out class ----------------------------------------------
     VALS = ['+', '>', '~', ',', ':', '{', ';', ')', ']', '/', '=', '}', '[', '(', '-', '*', 'a', 'b c', 'x ', ' ', '', '  ',
             '1px', '"s"', 'f(', '#aabbcc', '#abc', '#aabbcd', ')]', '/=', '+>', '()', '{}', 'a\nb', '\n', 'url(x)', 'a b',
-            '#AABBCC', '}\n', '!important', '@x', '.5', 'é', '\t', 'a\t', 'a\x7fb', 'a\x01', 'b\\ ', '\\ ', 'x\\\\ ', 'c\\  ']
+            '#AABBCC', '}\n', '!important', '|', '^', '$', '*x', '*=', '/*c*/', '**', '@x', '.5', 'é', '\t', 'a\t', 'a\x7fb', 'a\x01', 'b\\ ', '\\ ', 'x\\\\ ', 'c\\  ']
     TYPES = ['COMMENT', 'S', 'STRING', 'URI', 'HASH', 'FUNCTION', 'adjacent-sibling', 'child', 'following-sibling', 'plus',
              'styletext', 'IDENT', 'CHAR', 'CHAR', 'CHAR', None, None, None, 'DIMENSION', 'Value', 'operator', 'COMMA',
              'descendant', 'ATKEYWORD', 'COLOR_VALUE']
@@ -720,6 +833,52 @@ class C06(Check):
                 ctx.disagree('Out.append script', {'script': [list(s) for s in script], 'prefs': dp},
                              dec(got[3:]) if got.startswith('OK ') else got, dec(m[3:]) if m.startswith('OK ') else m)
 
+    # -- every adjacent pair of lexemes, on the real Out class and the real tokenizer ---------------------
+    PAIR_CHARS = '!#$%&*+,-./:;<=>?@[]^{|}~()'
+    PAIR_WORDS = [('a', 'IDENT'), ('-a', 'IDENT'), ('u', 'IDENT'), ('url', 'IDENT'), ('1', 'NUMBER'), ('.5', 'NUMBER'),
+                  ('-1', 'NUMBER'), ('+1', 'NUMBER'), ('1px', 'DIMENSION'), ('1e', 'DIMENSION'), ('1%', 'PERCENTAGE'),
+                  ('#ab', 'HASH'), ('s', 'STRING'), ('x', 'URI'), ('f(', 'FUNCTION'), ('@x', 'ATKEYWORD'),
+                  ('U+26', 'UNICODE-RANGE'), ('!important', None), ('/*c*/', 'COMMENT')]
+
+    def run_pairs(self, ctx, im):
+        """The pair table of `Lemmas/OutPairs.lean` on the implementation (same 46 lexemes): two calls on a fresh `Out`,
+        tokenized by cssutils' tokenizer; the tokens must be those of the first call followed by those of the second —
+        under the default record, the minified layout strings, and every single layout string emptied."""
+        Out = im.cu.serialize.Out
+
+        class Obj:
+            def __init__(self, t):
+                self.cssText = t
+        lex = [(c, 'CHAR') for c in self.PAIR_CHARS] + self.PAIR_WORDS
+        lay = {k: '' for k in O.LAYOUT if k != 'indentClosingBrace'}
+        records = [{}, lay] + [{k: ''} for k in sorted(lay)]
+
+        def text(calls):
+            o = Out(im.cu.ser)
+            for v, t in calls:
+                o.append(Obj(v) if t == 'COMMENT' else v, t)
+            return o.value()
+
+        def toks(calls):
+            return [t for t in O.nontoks(text(calls)) if t[0] != 'EOF']
+        for d in records:
+            prefs = self.full(im, d)
+
+            def go():
+                bad = []
+                single = {x: toks([x]) for x in lex}
+                for a in lex:
+                    for b in lex:
+                        if toks([a, b]) != single[a] + single[b]:
+                            bad.append((a, b, text([a, b])))
+                return bad
+            bad = im.with_prefs(prefs, go)
+            ctx.case(key=('pairs', repr(sorted(d.items()))), nontrivial=True, kind='lexeme-pairs')
+            for a, b, t in bad:
+                region = prefs['spacer'] == '' and a[0] in ('*', '|', '^', '$') and a[1] == 'CHAR' and b == ('=', 'CHAR')
+                ctx.violate('two adjacent lexemes are written as another token', {'script': [['s', a[0], a[1], [True, False, False, False]], ['s', b[0], b[1], [True, False, False, False]]], 'prefs': d},
+                            {'text': t}, known='C06-op-equals-fusion' if region else None)
+
     # -- useDefaults() restores the default output byte for byte ------------------------------------
     def oracle_restore(self, ctx, im):
         rng = ctx.sub_rng('restore')
@@ -772,6 +931,45 @@ class C06(Check):
                             {'default': d0.decode('utf-8', 'replace')[:300], 'after': d1.decode('utf-8', 'replace')[:300]})
 
     # ------------------------------------------------------------------------------------------
+    SEARCH_BUDGET_S = 75
+
+    def search(self, ctx):
+        """A proof obligation or the correspondence broke: look for a concrete failing input ON THE IMPLEMENTATION
+        (oracle only, no model), time-boxed. First the inputs on which model and code disagree — under the record of
+        the disagreement, each of its assignments alone, the minified preset; then fresh generator rounds of quick
+        size in the pool until a violation shows or the budget is used up."""
+        ctx.search_mode = True
+        im = getattr(self, 'im', None) or Impl()
+        self.im = im
+        t0 = time.time()
+        try:
+            seen = set()
+            for d in list(ctx.disagreements):
+                inp = d.get('input') if isinstance(d.get('input'), dict) else None
+                if not inp or 'src' not in inp:
+                    continue
+                full = inp.get('shrunk_from') or inp.get('prefs') or {}
+                recs = [inp.get('prefs') or {}, full] + [{k: v} for k, v in full.items()] \
+                    + [{}, diff_prefs(im.minified, im.defaults)]
+                key = (inp['src'], repr(recs))
+                if key in seen:
+                    continue
+                seen.add(key)
+                self.check_sheet(ctx, im, inp['src'], recs, 'search-disagreement')
+                if ctx.violations:
+                    return
+            rnd = 0
+            while not ctx.violations and time.time() - t0 < self.SEARCH_BUDGET_S:
+                rnd += 1
+                self.salt = '/search%d' % rnd
+                self.run_sheets(ctx, im)
+                if rnd % 4 == 1 and not ctx.violations:
+                    self.run_files(ctx, im)
+            ctx.notes['search_rounds'] = rnd
+        finally:
+            self.salt = ''
+            im.cu.ser.prefs.useDefaults()
+
     def known(self, ctx, finding):
         im = getattr(self, 'im', None) or Impl()
         w = finding['witness']['data']
@@ -782,19 +980,12 @@ class C06(Check):
             res, _ = im.serialize(sh, prefs)
             if res[0] != 'OK':
                 return True
-            if fid in ('C06-indent-inside-token', 'C06-nth-plus-fusion'):
+            if fid in ('C06-indent-inside-token', 'C06-nth-plus-fusion', 'C06-op-equals-fusion'):
                 q = dict(prefs)
                 for k in O.LAYOUT:
                     q[k] = im.defaults[k]
                 base, _ = im.serialize(sh, q)
                 return O.nontoks(res[1]) != O.nontoks(base[1])
-            if fid == 'C06-hash-in-unknown-rule':
-                leaf = {k: prefs[k] for k in O.LEAF}
-                leaf.update(O.LEAF_FIXED)
-                expected = im.with_prefs(leaf, lambda: O.effect(O.canon(sh), prefs, O.used_uris(sh)))
-                sh2 = im.parse(res[1])
-                got = im.with_prefs(leaf, lambda: O.strip_flags(O.canon(sh2)))
-                return got != expected
         finally:
             im.cu.ser.prefs.useDefaults()
         return True
